@@ -289,15 +289,8 @@ class SymExec:
                 if isinstance(val, ast.BinOp) and isinstance(val.op, ast.Add) and norm(val.left) == norm(init):
                     terms.add(norm(val.right))
                     term = val.right
-                elif val is not None and norm(val) == norm(simplify(ast.BinOp(left=init, op=ast.Add(), right=ast.Constant(value=0)))):
-                    ok = False
                 else:
-                    # `0 + E` was simplified to E
-                    if isinstance(init, ast.Constant) and init.value == 0 and val is not None:
-                        terms.add(norm(val))
-                        term = val
-                    else:
-                        ok = False
+                    ok = False
             if not ok or len(terms) != 1:
                 continue
             if any(isinstance(n, ast.Name) and n.id == v for n in ast.walk(term)):
@@ -306,7 +299,12 @@ class SymExec:
                              args=[ast.Call(func=ast.Name(id='_each', ctx=ast.Load()),
                                             args=[term, self.subst(loop.iter, before.env)], keywords=[])],
                              keywords=[])
-            new = simplify(ast.BinOp(left=init, op=ast.Add(), right=total))
+            try:
+                from .model import const_value
+                zero = const_value(init) == 0 and not isinstance(const_value(init), (bool, str))
+            except (ValueError, TypeError):
+                zero = False
+            new = total if zero else ast.BinOp(left=init, op=ast.Add(), right=total)
             for b in after_paths:
                 if b.conds[:len(before.conds)] == before.conds and b.end is None:
                     b.env[v] = new
@@ -357,10 +355,11 @@ class SymExec:
                 it = self.subst(st.iter, p.env)
                 if self.bind_loops:
                     self._bind_loop(st.target, it, p2)
-                p2.conds = p2.conds + (('loop', norm(it)),)
+                loop_txt = norm(it)
             else:
-                p2.conds = p2.conds + (('loop', norm(self.subst(st.test, p.env))),)
-            body = self._block(st.body, [p2])
+                loop_txt = norm(self.subst(st.test, p.env))
+            p2.conds = p2.conds + (('loop', loop_txt),)
+            body = self._block(st.body, [p2.fork()])
             out = []
             for b in body:
                 if b.end in ('continue', 'break'):
@@ -370,7 +369,7 @@ class SymExec:
                 out.append(b)
             # zero iterations
             p0 = p.fork()
-            p0.conds = p0.conds + (('loop-skipped', p2.conds[-1][1]),)
+            p0.conds = p0.conds + (('loop-skipped', loop_txt),)
             out.append(p0)
             if self.bind_loops and isinstance(st, ast.For):
                 self._summarise_accumulators(st, p, out)
@@ -477,17 +476,13 @@ def _subst_inner(sx, n, env2):
 
 
 def simplify(e):
-    """(a, b)[1] -> b ;  0 + x -> x ;  x + 0 -> x   (after substitution)"""
+    """(a, b)[1] -> b   (after substitution; arithmetic is left as written: `c = E` and `c = 0 + E`
+    must stay distinguishable)"""
     def fn(n):
         if isinstance(n, ast.Subscript) and isinstance(n.value, (ast.Tuple, ast.List)) and \
            isinstance(n.slice, ast.Constant) and isinstance(n.slice.value, int) and \
            -len(n.value.elts) <= n.slice.value < len(n.value.elts):
             return simplify(n.value.elts[n.slice.value])
-        if isinstance(n, ast.BinOp) and isinstance(n.op, ast.Add):
-            if isinstance(n.left, ast.Constant) and n.left.value == 0 and not isinstance(n.left.value, bool):
-                return simplify(n.right)
-            if isinstance(n.right, ast.Constant) and n.right.value == 0 and not isinstance(n.right.value, bool):
-                return simplify(n.left)
         return None
     return copy_replace(e, fn)
 
@@ -576,3 +571,55 @@ def canon_k(text):
     def rep(mo):
         return seen.setdefault(mo.group(0), '_k%d' % len(seen))
     return re.sub(r'_k\d+', rep, text)
+
+
+def leading_literal(e):
+    """the literal text a string-valued expression starts with (None when it cannot be told)"""
+    if isinstance(e, ast.Constant) and isinstance(e.value, str):
+        return e.value
+    if isinstance(e, ast.BinOp) and isinstance(e.op, (ast.Add, ast.Mod, ast.Mult)):
+        l = leading_literal(e.left)
+        if l == '' and isinstance(e.op, ast.Add):
+            return leading_literal(e.right)
+        return l
+    if isinstance(e, ast.JoinedStr) and e.values:
+        v = e.values[0]
+        return v.value if isinstance(v, ast.Constant) else None
+    if isinstance(e, ast.Call) and isinstance(e.func, ast.Attribute) and e.func.attr == 'join' and len(e.args) == 1:
+        a = e.args[0]
+        while isinstance(a, ast.BinOp) and isinstance(a.op, (ast.Add, ast.Mult)):
+            a = a.left
+        if isinstance(a, (ast.List, ast.Tuple)) and a.elts:
+            return leading_literal(a.elts[0])
+        return None
+    if isinstance(e, ast.Call) and isinstance(e.func, ast.Attribute) and e.func.attr in (
+            'rstrip', 'ljust', 'upper', 'format'):
+        return leading_literal(e.func.value)
+    return None
+
+
+def fold_text(e):
+    """constant folding of literal-only string / list expressions (static, nothing is executed from
+    the repository): + * on str / list / int, sep.join(list), tuples; raises ValueError otherwise"""
+    if isinstance(e, ast.Constant):
+        return e.value
+    if isinstance(e, (ast.List, ast.Tuple)):
+        vals = [fold_text(x) for x in e.elts]
+        return vals if isinstance(e, ast.List) else tuple(vals)
+    if isinstance(e, ast.BinOp) and isinstance(e.op, (ast.Add, ast.Mult)):
+        a, b = fold_text(e.left), fold_text(e.right)
+        ok_add = isinstance(e.op, ast.Add) and type(a) is type(b) and isinstance(a, (str, list, tuple, int, float))
+        ok_mul = isinstance(e.op, ast.Mult) and ((isinstance(a, (str, list, tuple)) and isinstance(b, int) and 0 <= b <= 200)
+                                                 or (isinstance(b, (str, list, tuple)) and isinstance(a, int) and 0 <= a <= 200)
+                                                 or (isinstance(a, (int, float)) and isinstance(b, (int, float))))
+        if ok_add:
+            return a + b
+        if ok_mul:
+            return a * b
+        raise ValueError(norm(e))
+    if isinstance(e, ast.Call) and isinstance(e.func, ast.Attribute) and e.func.attr == 'join' and len(e.args) == 1:
+        sep = fold_text(e.func.value)
+        items = fold_text(e.args[0])
+        if isinstance(sep, str) and isinstance(items, (list, tuple)) and all(isinstance(x, str) for x in items):
+            return sep.join(items)
+    raise ValueError(norm(e))
